@@ -135,7 +135,10 @@ def handleCanon04 (l : Line) : List Verdict :=
     let mloc := httpRedirect reqpath out
     let diffs := cmpS "Canonical" out mout ++ cmpS "Clean(Canonical)" out2 out ++ cmpS "http.Redirect Location" loc mloc
     let viol := judge mode "canonical" basescheme origins domain "Location" loc false
-    pure (verdictsOf diffs viol)
+    -- hypothesis of Proofs.C04Abs.abs_authority_agrees, checked on what the implementation returned: everything before the first `?` is ASCII
+    let asciiViol := if mode != "standalone" && (cut '?' out).1.any (fun c => c.toNat ≥ 128)
+      then [("C04.hypothesis.non_ascii_before_query", s!"Canonical returned {sh out} with a raw non-ASCII byte before the query")] else []
+    pure (verdictsOf diffs (viol ++ asciiViol))
   r.getD [Verdict.bad "canon04"]
 
 /-- redir04: net/http's rewriting alone -/
